@@ -90,9 +90,60 @@ def check_pair(sel1, sel2, roots, rec=None):
                  sample=lambda: {"plan": T.plan_brief(roots), "selectors": [t1, t2], "records": [x1[:2], x2[:2]]})
 
 
+def check_mixed(sel1, sel2, roots, focused_first, rec=None):
+    """A focus-free selector sharing ONE probe (default probe_type) with a focused one: the
+    focus-free selector still gets one complete record per outermost call, the focused one
+    its immediate events."""
+    from ptera import probing
+    import copy
+
+    sel2 = _rename(sel2, "d")
+    t1, t2 = T.spelling(sel1), T.spelling(sel2)
+    texts = (t2, t1) if focused_first else (t1, t2)
+    trace = M.simulate(roots)
+    F.DISPATCH.update(F.RAW)
+    try:
+        with probing(*texts, env=T.env(), raw=True).values() as vals:
+            F.drive(copy.deepcopy(roots))
+    except BaseException as e:
+        _cleanup()
+        raise PropertyViolation(
+            "run", f"probing{texts!r} raised {HY.describe_exc(e)}", extra={"bucket": "run:" + HY.exc_bucket(e)}
+        )
+    try:
+        e1 = [{k: list(c.values) for k, c in ev.items()} for ev in vals if all(k.startswith("c") for k in ev)]
+        e2 = [{k: c.value for k, c in ev.items()} for ev in vals if all(k.startswith("d") for k in ev)]
+        if len(e1) + len(e2) != len(list(vals)):
+            raise PropertyViolation("records", f"mixed probe: records mixing both selectors' captures")
+        x1 = M.total_records(sel1, trace)
+        if e1 != x1:
+            raise PropertyViolation(
+                "records", f"probing{texts!r}: the focus-free selector must deliver {x1!r}, got {e1!r}"
+            )
+        groups = M.immediate_events(sel2, trace)
+        i = 0
+        for g in groups:
+            seg = e2[i:i + len(g)]
+            if M.multiset(seg) != M.multiset(g):
+                raise PropertyViolation(
+                    "records", f"probing{texts!r}: the focused selector must deliver {groups!r}, got {e2!r}")
+            i += len(g)
+        if i != len(e2):
+            raise PropertyViolation(
+                "records", f"probing{texts!r}: the focused selector got extra events {e2[i:]!r}")
+    finally:
+        _cleanup()
+    if rec is not None:
+        nt = bool(x1) and any(groups)
+        rec.case(h64(repr((roots, sel1, sel2, focused_first))), nt, {"mode:mixed"},
+                 sample=lambda: {"plan": T.plan_brief(roots), "selectors": list(texts), "records": x1[:2]})
+
+
 def check_case(sel, roots, mode, choices, rec=None):
     if mode == "pair":
         return check_pair(sel[0], sel[1], roots, rec)
+    if mode in ("mixed", "mixed-focused-first"):
+        return check_mixed(sel[0], sel[1], roots, mode == "mixed-focused-first", rec)
     text = T.spelling(sel, choices)
     trace = M.simulate(roots)
     try:
@@ -201,7 +252,13 @@ def shard(cfg):
         st.just("pair"),
         st.none(),
     )
-    strat = st.one_of(free, free, forced, pair)
+    mixed = st.tuples(
+        st.tuples(T.selector_strategy(max_depth=3, focus="no", fns=GFNS), T.selector_strategy(max_depth=2, focus="yes", fns=GFNS)),
+        T.plan_strategy(max_nodes=cfg["nodes"], max_depth=cfg["depth"], fns=GFNS),
+        st.sampled_from(["mixed", "mixed-focused-first"]),
+        st.none(),
+    )
+    strat = st.one_of(free, free, free, forced, forced, pair, mixed)
 
     def body(case):
         sel, roots, mode, choices = case
